@@ -201,6 +201,10 @@ def array_level(chk, tier, r):
                 idx = arr.sindex
             qs = [[r.randint(-10, 5), r.randint(-10, 5)] for _ in range(6)]
             qs = [q + [q[0] + r.choice((0, 3, 9, 25)), q[1] + r.choice((0, 3, 9, 25))] for q in qs] + [[-50, -50, 50, 50]]
+            # queries without a bound on some side: half planes, strips, everything
+            inf = float("inf")
+            qs += [[-inf, -inf, inf, inf], [-inf, r.randint(-5, 5), r.randint(-5, 5), inf], [r.randint(-5, 5), -inf, inf, r.randint(-5, 5)],
+                   [-inf, -inf, r.randint(-5, 5), r.randint(-5, 5)]]
             for q in qs:
                 gi = sorted(int(x) for x in idx.intersects(tuple(q)))
                 co = idx.covers_overlaps(tuple(q))
